@@ -308,7 +308,10 @@ def mn_do_load(ir, instr, arg1, arg2, arg3=None):
     ret.append(ExprAssign(arg1, src))
     if has_u:
         if arg3 is None:
-            ret.append(ExprAssign(arg2.ptr.args[0], address))
+            base = arg2.ptr.args[0] if arg2.ptr.is_op('+') else arg2.ptr
+            if not base.is_id():
+                raise NotImplementedError("invalid form: update with rA = 0")
+            ret.append(ExprAssign(base, address))
         else:
             ret.append(ExprAssign(arg2, address))
 
@@ -659,7 +662,10 @@ def mn_do_store(ir, instr, arg1, arg2, arg3=None):
     ret.append(ExprAssign(dest, src))
     if has_u:
         if arg3 is None:
-            ret.append(ExprAssign(arg2.ptr.args[0], address))
+            base = arg2.ptr.args[0] if arg2.ptr.is_op('+') else arg2.ptr
+            if not base.is_id():
+                raise NotImplementedError("invalid form: update with rA = 0")
+            ret.append(ExprAssign(base, address))
         else:
             ret.append(ExprAssign(arg2, address))
 
